@@ -1,7 +1,10 @@
 """Trace normalisation for the Epoch driver (C09): vsched trace -> lines for Epoch_Trace.tla (L2),
-Epoch_Mon.tla (L1) and HBMon.tla; program generation; order-table regeneration (generic, also used by C10)."""
+Epoch_Mon.tla (L1); program generation; order-table regeneration (generic, also used by C10)."""
+import json
 import os
 import re
+
+import vlib
 
 MAXV = 1000000   # stands for UINT64_MAX in the TLA+ specs
 OPS = {"lk": "lock", "ul": "unlock", "cr": "create", "rl": "release", "rd": "read", "df": "deref", "gv": "give", "tk": "take",
@@ -95,32 +98,6 @@ def monitor_lines(events):
             out.append(dict(D, k="final", res=big(e["mark"])))
         elif k == "end":
             out.append(dict(D, k="end", status=e.get("status", "?")))
-    return out
-
-
-def hb_lines(events):
-    """-> lines for the generic HBMon.tla: every atomic operation with the order the code passed; the use of an
-    object is a read access, its reclamation a write access of the cell ("obj", id)"""
-    out = []
-    D = {"t": 0, "k": "", "loc": "", "i": 0, "mo": "", "ok": True}
-    for e in events:
-        k = e.get("k")
-        t = max(0, e.get("t", 0))
-        if k == "reset":
-            out.append(dict(D, k="reset"))
-        elif k in ("load", "store", "xchg", "faa", "fand", "for", "fxor"):
-            out.append(dict(D, t=t, k=k, loc=e["loc"], i=e.get("i", 0), mo=e["mo"]))
-        elif k == "cas":
-            out.append(dict(D, t=t, k=k, loc=e["loc"], i=e.get("i", 0), mo=e["mo"], ok=e["ok"]))
-        elif k == "fence":
-            out.append(dict(D, t=t, k=k, mo=e["mo"]))
-        elif k in ("spawn", "join"):
-            out.append(dict(D, t=t, k=k, i=e["child"]))
-        elif k == "deref" and e["obj"] > 0:
-            out.append(dict(D, t=t, k="acc", loc="obj", i=e["obj"], ok=False))
-        elif k == "reclaim":
-            for o in e["objs"]:
-                out.append(dict(D, t=t, k="acc", loc="obj", i=o, ok=True))
     return out
 
 
@@ -234,3 +211,64 @@ def regen_mo(module, pairs, committed_path, out_dir):
         head = "-" * 30 + " MODULE " + module + " " + "-" * 30
         open(path, "w").write("%s\n(* generated from the running code *)\nMO == [\n  %s\n]\n%s\n" % (head, body, "=" * (62 + len(module))))
     return table, changed, unobserved, unknown, path
+
+
+# ----------------------------------------------------------------------------- trace validation
+def check_traces(tla, cfg, execs, name, max_rounds=4, timeout=1800, env=None):
+    """Same contract as vlib.check_traces, but the failing line is located in TLC's COMPLETE output: a violation
+    deep inside the concatenated file makes TLC print one state per explained line, and vlib keeps only the first
+    20000 characters of that (which would point at the wrong execution)."""
+    issues = []
+    accepted = 0
+    stats = {"states": 0, "wall": 0.0, "rounds": 0, "pairs": set()}
+    offset = 0
+    todo = list(execs)
+    os.makedirs(os.path.join(vlib.BUILD, "traces"), exist_ok=True)
+    while todo and stats["rounds"] < max_rounds:
+        stats["rounds"] += 1
+        path = os.path.join(vlib.BUILD, "traces", "%s.%d.ndjson" % (name, os.getpid()))
+        starts = []
+        n = 0
+        with open(path, "w") as f:
+            for ex in todo:
+                starts.append(n + 1)
+                for e in ex:
+                    f.write(json.dumps(e, separators=(",", ":")) + "\n")
+                n += len(ex)
+        r = vlib.validate_trace(tla, cfg, path, extra_env=env, timeout=timeout)
+        stats["states"] += r.distinct
+        stats["wall"] += r.wall
+        pv = vlib.parse_verif(r.out)
+        if pv:
+            stats["pairs"].update(pv[2])
+        try:
+            os.unlink(path)
+        except OSError:
+            pass
+        if r.ok and pv and pv[0] >= pv[1]:
+            accepted += len(todo)
+            todo = []
+            break
+        if r.violation and r.violation not in ("tlc_error", "timeout", "postcondition"):
+            m = re.findall(r"/\\ l = (\d+)", r.out)
+            line = max(1, (int(m[-1]) if m else 1) - 1)   # l points at the next line; the offending event is the previous one
+            kind = "invariant:" + r.violation
+            k = r.out.rfind("\nState ")
+            detail = r.out[k:k + 8000] if k >= 0 else r.out[-6000:]
+        elif pv:
+            line = min(pv[0] + 1, n)
+            kind = "rejected"
+            detail = "explained %d of %d lines" % (pv[0], pv[1])
+        else:
+            raise vlib.Broken("trace validation of %s failed: %s" % (name, (r.error_trace or r.out)[-3000:]))
+        j = 0
+        for idx, st in enumerate(starts):
+            if st <= line:
+                j = idx
+        issues.append(vlib.TraceIssue(offset + j, kind, detail, line - starts[j] + 1))
+        accepted += j
+        offset += j + 1
+        todo = todo[j + 1:]
+    stats["pairs"] = sorted(stats["pairs"])
+    stats["unchecked"] = len(todo)
+    return accepted, issues, stats
